@@ -14,7 +14,7 @@ from .. import gen, jwegen as g, jweprod as P
 
 LEVEL = "exploration"
 RULE = ("cells of the product alg(21) x enc(8) x zip x curve(6) x serialization(compact, flattened, general 1-4 recipients of mixed "
-        "algorithms) x plaintext class (0,1,15,16,17,32 octets, 1 KiB, JSON, UTF-8; 255999/256000 with DEF on the thorough tier) x AAD x "
+        "algorithms) x plaintext class (0,1,15,16,17,32 octets, 1 KiB, JSON, UTF-8; 255999/256000 with DEF: all encs on the thorough tier, two on the quick tier) x AAD x "
         "apu/apv x header placement x key supplied per recipient / as key / as key set: every (alg, enc, zip) and every "
         "(ECDH variant, curve) is forced, the rest seeded random; forbidden combinations (direct mode with several recipients, "
         "ECDH-1PU key wrapping with a non-CBC-HS enc) must be refused by encrypt_*. Non-trivial: encrypt returned a token and decrypt "
@@ -136,11 +136,14 @@ def forced(tier):
     for enc in g.ENCS:
         for form in ("flattened", "general2"):
             cells.append(dict(enc=enc, form=form, zip_unprotected=True, zip_=False, alg="A128KW", plain="json"))
-    if tier == "thorough":
-        for enc in g.ENCS:
-            for plain in ("big255999", "big256000"):
-                cells.append(dict(plain=plain, enc=enc, zip_=True, alg="dir", form="compact"))
-    return cells
+    # plaintexts at the decompression limit (with DEF): every enc on the thorough tier, two of them on the quick tier; put first so
+    # that the time budget never drops them
+    limit_cells = []
+    for i, enc in enumerate(g.ENCS):
+        for plain in ("big255999", "big256000"):
+            if tier == "thorough" or (i in (0, 5) and plain == "big256000"):
+                limit_cells.append(dict(plain=plain, enc=enc, zip_=True, alg="dir", form="compact" if i % 2 == 0 else "flattened"))
+    return limit_cells + cells
 
 
 def run_shard(ctx):
